@@ -17,8 +17,9 @@ EXTENDS Integers, Sequences, FiniteSets
 
 CONSTANTS LqThreads,   \* threads that issue operations
           LqCap,       \* capacity (BUFFER_SIZE)
-          LqRelaxEmpty \* FALSE: the property as stated.  TRUE: additionally tolerate the recorded known finding
+          LqRelaxEmpty,\* FALSE: the property as stated.  TRUE: additionally tolerate the recorded known finding
                        \* KF-C02-spurious-empty (an "empty" answer given while another dequeue is in progress)
+          LqMode       \* "fifo": queue;  "lifo": stack;  "bag": unordered pool (any stored element may be taken)
 
 NotYet == [ok |-> FALSE, v |-> -1]
 NoOp   == [op |-> "none", v |-> 0]
@@ -44,9 +45,13 @@ LqLin1(c, t, pend, extra) ==
                     ELSE {}
         IN succ \cup full
     ELSE IF pend[t].op = "deq" THEN
-        LET succ  == IF c.q # <<>>
+        LET succ  == IF c.q = <<>> THEN {}
+                     ELSE IF LqMode = "fifo"
                      THEN {[q |-> Tail(c.q), done |-> [c.done EXCEPT ![t] = [ok |-> TRUE, v |-> Head(c.q)]]]}
-                     ELSE {}
+                     ELSE IF LqMode = "lifo"
+                     THEN {[q |-> SubSeq(c.q, 1, Len(c.q) - 1), done |-> [c.done EXCEPT ![t] = [ok |-> TRUE, v |-> c.q[Len(c.q)]]]]}
+                     ELSE {[q |-> SubSeq(c.q, 1, i - 1) \o SubSeq(c.q, i + 1, Len(c.q)),
+                            done |-> [c.done EXCEPT ![t] = [ok |-> TRUE, v |-> c.q[i]]]] : i \in 1..Len(c.q)}
             otherDeq == \E u \in LqThreads \ {t} : pend[u].op = "deq"
             empty == IF c.q = <<>> \/ (LqRelaxEmpty /\ otherDeq)
                      THEN {[q |-> c.q, done |-> [c.done EXCEPT ![t] = [ok |-> FALSE, v |-> 0]]]}
@@ -74,4 +79,7 @@ LqRetAny(cs, pend, t, extra) ==
 
 \* the queue contents still possible when nothing is pending
 LqContents(cs) == {c.q : c \in cs}
+\* does the concrete content (a sequence, oldest first) agree with some candidate?  (as a bag for "bag" mode)
+BagOf(s) == [v \in {s[i] : i \in 1..Len(s)} |-> Cardinality({i \in 1..Len(s) : s[i] = v})]
+LqAgrees(cs, actual) == IF LqMode = "bag" THEN \E c \in cs : BagOf(c.q) = BagOf(actual) ELSE actual \in LqContents(cs)
 =============================================================================
